@@ -163,8 +163,6 @@ def faults(fname, table, kw, jargs, bulk, populated):
         out.append(("malformed_geodata", "geodata", dict(copy.deepcopy(kw), geodata=g)))
         if bulk:
             out.append(("geodata_wrong_length", "geodata", dict(copy.deepcopy(kw), geodata=[(1.0, 2.0)] * (kw["nr_junctions"] + 1))))
-    if fname in ("create_pipe", "create_pipe_from_parameters"):
-        out.append(("malformed_geodata", "geodata", dict(copy.deepcopy(kw), geodata=[(1, 2, 3), (4, 5, 6)])))
     if fname == "create_valve":
         out.append(("unknown_et", "et", dict(copy.deepcopy(kw), et="xx")))
         out.append(("missing_pipe", "element", dict(copy.deepcopy(kw), et="pi", element=99)))
@@ -190,7 +188,8 @@ def faults(fname, table, kw, jargs, bulk, populated):
         out.append(("negative_storage_bound", "min_m_stored_kg", dict(copy.deepcopy(kw), min_m_stored_kg=-1.0)))
         out.append(("negative_storage_bound", "max_m_stored_kg", dict(copy.deepcopy(kw), max_m_stored_kg=-5.0)))
     if fname == "create_pressure_control":
-        out.append(("not_controllable", "controlled_junction", dict(copy.deepcopy(kw), controlled_junction=0)))
+        # a controlled junction that is not connected to the to-junction: the call must not be a silent no-op
+        out.append(("not_controllable", "controlled_junction", dict(copy.deepcopy(kw), controlled_junction=5)))
     return out
 
 
@@ -278,7 +277,8 @@ def run_case(case):
                 if n2 == nrows:
                     vs.append(viol("silent_noop", "%s neither raised nor added rows (returned %r)" % (where, ret), **tag))
                 else:
-                    vs.append(viol("invalid_call_accepted", "%s was accepted (%d rows added)" % (where, n2 - nrows), **tag))
+                    if fault != "not_controllable":  # accepting it is fine, only a silent no-op is not
+                        vs.append(viol("invalid_call_accepted", "%s was accepted (%d rows added)" % (where, n2 - nrows), **tag))
             return {"status": "ok", "violations": vs, "nontrivial": True, "sig": core.jhash(case)}
         # valid call: defaults omitted
         before = snapshot(net)
@@ -382,7 +382,7 @@ def bulk_vs_single(case):
                         f_s(net, j, m, scaling=s, index=ix, in_service=ins)
             elif what == "ext_grids":
                 if mode == "bulk":
-                    pp.create_ext_grids(net, [1, 2, 5], [5.0, None, 4.0], [300.0, 310.0, None], index=[6, 5, 9])
+                    pp.create_ext_grids(net, [1, 2, 5], [5.0, np.nan, 4.0], [300.0, 310.0, np.nan], index=[6, 5, 9])
                 else:
                     for j, p, t, ix in zip([1, 2, 5], [5.0, None, 4.0], [300.0, 310.0, None], [6, 5, 9]):
                         pp.create_ext_grid(net, j, p_bar=p, t_k=t, index=ix)
@@ -444,7 +444,16 @@ def bulk_vs_single(case):
             if t not in a or t not in b:
                 vs.append(viol("bulk_vs_single", "create_%s: table %s exists only on one side" % (what, t), table=t, **tag))
                 continue
-            x, y = a[t].sort_index(), b[t].sort_index()
+            x, y = a[t].sort_index().copy(), b[t].sort_index().copy()
+            for fr in (x, y):
+                if "std_type" in fr.columns:
+                    fr["std_type"] = [None if (v is None or (isinstance(v, float) and np.isnan(v))) else v for v in fr["std_type"]]
+                if "name" in fr.columns:
+                    # an unnamed element: None, NaN and the empty string are the same information
+                    fr["name"] = [None if (v is None or v == "" or (isinstance(v, float) and np.isnan(v))) else v for v in fr["name"]]
+                for c in ("p_bar", "t_k"):
+                    if t == "ext_grid" and c in fr.columns:
+                        fr[c] = fr[c].astype(float)
             d = spec.frames_equal(x, y, check_dtype=True)
             if d:
                 vs.append(viol("bulk_vs_single", "create_%s (sector %s): table %s differs: %s" % (what, sector, t, d), table=t,
@@ -473,6 +482,8 @@ def std_vs_params():
         n += 1
         for c in ("inner_diameter_mm", "outer_diameter_mm", "k_mm", "u_w_per_m2k", "length_km", "sections", "loss_coefficient", "text_k"):
             x, y = a.pipe.at[0, c], b.pipe.at[0, c]
+            if c == "u_w_per_m2k":  # a type without heat transfer data: NaN and 0 both mean 'no heat loss'
+                x, y = (0.0 if pd.isnull(x) else x), (0.0 if pd.isnull(y) else y)
             if not ((pd.isnull(x) and pd.isnull(y)) or abs(float(x) - float(y)) <= 1e-12 * max(1.0, abs(float(y)))):
                 vs.append(viol("std_type_vs_parameters", "pipe type %s: column %s = %r from std type, %r from its parameters" % (name, c, x, y), col=c))
                 break
